@@ -465,7 +465,7 @@ func gen(r *hx.Rand, tier string, i int) string {
 	cb := cmdBytes(r, cmd)
 	// block/tx decoders are explored only; their trailing-bytes / old-format classes are recorded in findings/C24.json but
 	// not generated here (see the report), so `loose` is never set for them
-	p := genPayload(r, cmd, r.Chance(6) && cmd != "tx" && cmd != "block")
+	p := genPayload(r, cmd, r.Chance(6))
 	switch r.Intn(10) {
 	case 0, 1, 2, 3, 4, 5:
 		return "D " + hx.Hex(cb) + " " + hx.Hex(p)
